@@ -6,7 +6,7 @@ ID = "C11"
 LEVEL = "model_checking"
 RULE = ("operations {runW (new WNTRSimulator), runWs (WNTRSimulator object of the previous run reused), runE (EpanetSimulator), runE20 (EpanetSimulator with version=2.0, at most once per history), reset (reset_initial_values), copy (deepcopy, continue on the "
         "copy), reload (write_json/read_json, continue on the reloaded model)}; ALL histories of length <= 3 (quick) / <= 4 "
-        "(thorough) over 24 models carrying: status time controls on a pipe, a pump and a valve; a valve setting control; a pump "
+        "(thorough) over 25 models carrying: status time controls on a pipe, a pump and a valve; a valve setting control; a pump "
         "speed control; tank-level controls; a leak window; a rule with ELSE; PDD; an initially CLOSED pump and an initially "
         "CLOSED / OPEN valve built through the API (no reset after building); a volume-curve tank; a head pump; a head pump pushed beyond the end of its curve; report steps the simulator adjusts for itself (shorter than / not a multiple of the hydraulic step); nine of them additionally with the operation edit (ONE definition edit through the public API followed by reset_initial_values(): pipe diameter, pump curve points, pattern multipliers, volume curve points, junction required pressure, leak replaced, valve initial setting, valve initial status, tank initial level) after which the model must behave like one built with the edited value from scratch.  A state is a history prefix "
         "(runtime state of live objects cannot be canonicalised, so prefixes are not merged); every transition replays the history "
@@ -62,6 +62,10 @@ def models():
     # a second tank joined directly to the first one (their limit controls interact)
     s = base(); s["nodes"].append(T("T2", elev=33.0, init=2.0, mn=0.5, mx=4.0, diam=4.0)); s["links"].append(P("p5", "T2", "T", L=150.0, D=0.15))
     M["tank_pair"] = s
+    # a one-shot clock-time control created BEFORE start_clocktime is raised past its threshold (order of API calls)
+    s = base(); s["opts"].update(clock=6 * H); s["late_options"] = True
+    s["controls"] = [{"kind": "clock", "t": 2 * H, "link": "p2", "value": "CLOSED", "repeat": False}, {"kind": "clock", "t": 8 * H, "link": "p4", "value": "CLOSED", "repeat": False}]
+    M["clock_once_late_start"] = s
     # links whose status at the END of a run differs from their initial status: a power pump, a head pump and a TCV that a time
     # control closes for good (the tank supplies the network afterwards)
     s = base(); s["nodes"][0]["head"] = 30.0; node(s, "T")["diam"] = 20.0
